@@ -20,6 +20,15 @@ import pypandoc  # type: ignore
 from gapic.utils.lines import wrap
 
 
+def _escape_triple_quotes(text: str) -> str:
+    """Escape triple double-quotes in text that is placed inside docstrings.
+
+    The output of :func:`rst` is embedded in triple-quoted string literals,
+    which an unescaped run of three double-quotes would terminate early.
+    """
+    return text.replace('"""', '\\"\\"\\"')
+
+
 def rst(
     text: str,
     width: int = 72,
@@ -49,7 +58,7 @@ def rst(
     # is by far the most expensive thing we do.)
     if not re.search(r"[|*`_[\]]", text):
         answer = wrap(
-            text,
+            _escape_triple_quotes(text),
             indent=indent,
             offset=indent + 3,
             width=width - indent,
@@ -66,6 +75,7 @@ def rst(
             .strip()
             .replace("\n", f"\n{' ' * indent}")
         )
+        answer = _escape_triple_quotes(answer)
 
     # Add a newline to the end of the document if any line breaks are
     # already present.
